@@ -526,6 +526,9 @@ func (d *deriver) derive0(e ast.Expr, depth int) []datom {
 			}
 		}
 		if owner == nil {
+			if atoms, isClosureParam := d.closureParam(fn, o, depth); isClosureParam {
+				return atoms
+			}
 			return d.typeSwitchBinding(fn, x, depth)
 		}
 		for _, a := range owner.Assignments(o) {
@@ -2164,6 +2167,20 @@ func flagFuel(p *Prog, d *deriver, call *ast.CallExpr, recvExpr ast.Expr) string
 	fn := d.funcOfNode(call)
 	info := fn.Info()
 	mid, ok := ast.Unparen(recvExpr).(*ast.Ident)
+	if ok {
+		// M := R.h(…); M.Method(…): the same, with the helper's result kept in a local first
+		if mo := info.ObjectOf(mid); mo != nil && len(fn.Assignments(mo)) == 1 {
+			if def := fn.SingleDef(mo); def != nil {
+				if _, isCall := ast.Unparen(def).(*ast.CallExpr); isCall {
+					if _, isConv := info.Types[ast.Unparen(def).(*ast.CallExpr).Fun]; !isConv || !info.Types[ast.Unparen(def).(*ast.CallExpr).Fun].IsType() {
+						if why := flagFuel(p, d, call, def); why != "" {
+							return why
+						}
+					}
+				}
+			}
+		}
+	}
 	if !ok {
 		// the callee's receiver is built by a helper of the module: R.h(…).Method(…); every
 		// value the helper returns must have the flag stored as true before the return
@@ -2304,4 +2321,66 @@ func flagFuel(p *Prog, d *deriver, call *ast.CallExpr, recvExpr ast.Expr) string
 		}
 	}
 	return ""
+}
+
+// closureParam: o is a parameter of a local closure that is bound once to a name and only
+// ever called by that name: it carries what the call sites pass for it.
+func (d *deriver) closureParam(fn *Func, o types.Object, depth int) ([]datom, bool) {
+	for f := fn; f != nil; f = f.Parent {
+		if f.Lit == nil || f.Parent == nil {
+			continue
+		}
+		info := f.Info()
+		k, idx := 0, -1
+		for _, fld := range f.Lit.Type.Params.List {
+			for _, nm := range fld.Names {
+				if info.ObjectOf(nm) == o {
+					idx = k
+				}
+				k++
+			}
+		}
+		if idx < 0 {
+			continue
+		}
+		as, ok := f.Prog.parents[f.Lit].(*ast.AssignStmt)
+		if !ok || as.Tok != token.DEFINE || len(as.Lhs) != 1 || len(as.Rhs) != 1 {
+			return nil, true
+		}
+		nid, ok := as.Lhs[0].(*ast.Ident)
+		if !ok {
+			return nil, true
+		}
+		no := info.ObjectOf(nid)
+		root := rootFunc(f)
+		if no == nil || len(root.Assignments(no)) != 1 {
+			return nil, true
+		}
+		var out []datom
+		okAll, n := true, 0
+		ast.Inspect(root.Body, func(z ast.Node) bool {
+			u, isId := z.(*ast.Ident)
+			if !isId || u == nid || info.ObjectOf(u) != no {
+				return true
+			}
+			call, isCall := f.Prog.parents[u].(*ast.CallExpr)
+			if !isCall || call.Fun != ast.Expr(u) || idx >= len(call.Args) {
+				okAll = false
+				return true
+			}
+			n++
+			r := d.derive(call.Args[idx], depth+1)
+			if r == nil {
+				okAll = false
+				return true
+			}
+			out = append(out, r...)
+			return true
+		})
+		if !okAll || n == 0 {
+			return nil, true
+		}
+		return out, true
+	}
+	return nil, false
 }
